@@ -234,6 +234,18 @@ class Sut:
                 else:
                     P.add(c)
             return None
+        if k == 'add_unknown':
+            # an element without a name (unknown element), TOLERANT only
+            from hl7apy import core
+            P = self.nav(ri, op['p'])
+            if P.__class__.__name__ == 'ElementProxy':
+                raise NavError('no parent at that path')
+            f = core.Field(version=self.meta[ri]['version'], validation_level=self.level)
+            f.value = op['text']
+            P.add(f)
+            self.unknown = getattr(self, 'unknown', [])
+            self.unknown.append(f)
+            return None
         if k == 'selfassign':
             # re-assign a segment from its own ER7 text: nothing observable may change
             P = self.nav(ri, op['p'])
@@ -254,6 +266,16 @@ class Sut:
                     if c.to_er7() == '' or (depth < 3 and c.classname != 'SubComponent' and has_empty(c, depth + 1)):
                         return True
                 return False
+            fl_ = T.seg_fields(self.meta[ri]['version'], target.name) if not self.meta[ri].get('profile') else None
+            if fl_:
+                for c_ in target.children.list:
+                    try:
+                        i_ = int(c_.name.rsplit('_', 1)[1])
+                    except Exception:
+                        raise NavError('segment holds an unnamed child')
+                    if 1 <= i_ <= len(fl_) and fl_[i_ - 1][1] is not None and c_.datatype != fl_[i_ - 1][1][2]:
+                        # a datatype override does not survive a round trip through text either
+                        raise NavError('segment holds a field with an overridden datatype')
             if has_empty(target):
                 # present-but-empty children do not survive a round trip through text (and the statement
                 # does not say they should): the metamorphic check needs a segment without them
@@ -431,7 +453,9 @@ class Sut:
             return 'EXC ' + canon_exc(ex)
 
     def listing(self, e, depth=0):
-        out = [(e.classname, e.name, id(e))]
+        # (class, name, identity, identity of the parent it reports): a child that is still listed but
+        # no longer points at its parent is "half-attached"
+        out = [(e.classname, e.name, id(e), id(e.parent) if e.parent is not None else 0)]
         if depth < 8:
             for c in e.children.list:
                 out.append(self.listing(c, depth + 1))
@@ -652,8 +676,6 @@ class HistoryWorld:
                 src = EM.find_rep(sp_parent, st, skey, sr) if sp_parent is not None else None
                 if src is None or st != t:
                     return 'lost'
-                if sri != ri:
-                    return 'lost'          # cross-root moves: only the structural monitors apply
                 rr = r if via == 'item' else 0
                 dst = EM.find_rep(parent, t, key, rr)
                 if dst is src:
@@ -734,12 +756,20 @@ class HistoryWorld:
                 return 'lost'
             if any(k_ is node for k_ in parent.kids):
                 return done()              # already a child: no-op
-            # (an element has one parent: if it is still listed elsewhere in this root it moves)
+            # (an element has one parent: if it is still listed elsewhere it moves)
+            for r_ in sut.models:
+                if r_ is None or r_ is root:
+                    continue
+                for n_ in r_.all_nodes():
+                    if any(k_ is node for k_ in n_.kids):
+                        n_.kids = [k_ for k_ in n_.kids if k_ is not node]
             for n_ in root.all_nodes():
                 if any(k_ is node for k_ in n_.kids):
                     n_.kids = [k_ for k_ in n_.kids if k_ is not node]
             parent.kids.append(node)
             return done()
+        if k == 'add_unknown':
+            return 'lost'
         if k in ('read', 'validate', 'mkroot', 'hold', 'selfassign'):
             return (0, 0)
         return 'lost'
@@ -836,7 +866,8 @@ class HistoryWorld:
                 continue
             read_like = op['k'] in ('read', 'validate')
             before = s.snapshot(with_validate=read_like and op.get('deep', True))
-            ids_before = s.all_ids() if op['k'] in ('set', 'add', 'value', 'held_set') and op.get('via') not in ('parent_kw', 'parent_attr') else None
+            ids_before = s.all_ids() if op['k'] in ('set', 'add', 'value', 'held_set') and op.get('via') not in ('parent_kw', 'parent_attr') \
+                and 'elem' not in (op.get('v') or {}) else None
             self.fs.reset()
             try:
                 ret = s.apply(op)
